@@ -160,9 +160,12 @@ def run_case(ctx, index):
     else:
         obs = gen.gen_ids(r, n, r.choice(gen.ID_CLASSES), 'O')
         samp = gen.gen_ids(r, m, r.choice(gen.ID_CLASSES), 'S')
-    ttype = r.choice([None, 'OTU table', wild(r), 'a "quoted" \\ type'])
-    tid = r.choice([None, 'plain', wild(r), 'id, with "quotes" {x}'])
-    gby = r.choice(['vm', wild(r), 'gen "by" \\ 1.0\n', 'BIOM-Format é'])
+    ttype = r.choice([None, 'OTU table', wild(r), 'a "quoted" \\ type',
+                      r.choice(gen.NULLISH)])
+    tid = r.choice([None, 'plain', wild(r), 'id, with "quotes" {x}',
+                    r.choice(gen.NULLISH)])
+    gby = r.choice(['vm', wild(r), 'gen "by" \\ 1.0\n', 'BIOM-Format é',
+                    r.choice(gen.NULLISH)])
     spec = gen.Spec(obs, samp, D, wild_md(r, obs), wild_md(r, samp), ttype,
                     tid)
     recipe = r.choice(gen.LAYOUTS)
